@@ -931,14 +931,14 @@ mod script {
     }
 
     impl Tact {
-        fn coq(self) -> String {
+        pub fn coq(self) -> String {
             match self {
                 Tact::Default => "TDefault".into(),
                 Tact::Ignore => "TIgnore".into(),
                 Tact::Body(i) => format!("(TBody {})", coq::n(i as u64)),
             }
         }
-        fn mark(self) -> String {
+        pub fn mark(self) -> String {
             match self {
                 Tact::Default => "-".into(),
                 Tact::Ignore => "ign".into(),
@@ -1013,7 +1013,7 @@ mod script {
     fn status_arg(args: &[Field], i: usize) -> ExitStatus {
         ExitStatus(args.get(i).and_then(|f| f.value.parse::<i32>().ok()).unwrap_or(0))
     }
-    fn p_main(env: &mut VEnv, args: Vec<Field>) -> BuiltinFuture<'_> {
+    pub fn p_main(env: &mut VEnv, args: Vec<Field>) -> BuiltinFuture<'_> {
         Box::pin(async move {
             record(env, "p", &args);
             status_arg(&args, 1).into()
@@ -1029,7 +1029,7 @@ mod script {
             status_arg(&args, 1).into()
         })
     }
-    fn mark_main(env: &mut VEnv, args: Vec<Field>) -> BuiltinFuture<'_> {
+    pub fn mark_main(env: &mut VEnv, args: Vec<Field>) -> BuiltinFuture<'_> {
         Box::pin(async move {
             record(env, "mark", &args);
             ExitStatus::SUCCESS.into()
@@ -1630,6 +1630,42 @@ mod builtin_stream {
         /// conditions as (number, spelling), action, an invalid operand at this position
         Trap(Vec<(i32, String)>, Act, Option<usize>),
         Deliver(i32),
+        /// `command trap WORD...`: the operands as the built-in's lexical tests see them
+        Words(Vec<Wd>),
+    }
+
+    /// One operand of the `trap` built-in (Coq: `TrapCmd.word`).
+    #[derive(Clone, Debug)]
+    pub enum Wd {
+        Num(i32),
+        Name(i32),
+        /// a word that names no condition for yash-rs: unknown name, SIG prefix, lower case
+        Other(&'static str),
+        Dash,
+        Empty,
+        Cmd(u32),
+    }
+    impl Wd {
+        fn text(&self) -> String {
+            match self {
+                Wd::Num(n) => n.to_string(),
+                Wd::Name(c) => NAMES.iter().find(|(n, _)| n == c).expect("condition").1.to_string(),
+                Wd::Other(s) => s.to_string(),
+                Wd::Dash => "-".to_string(),
+                Wd::Empty => "''".to_string(),
+                Wd::Cmd(id) => format!("'hit {id}'"),
+            }
+        }
+        fn coq(&self) -> String {
+            match self {
+                Wd::Num(n) => format!("(WNum {})", coq::n(*n as u64)),
+                Wd::Name(c) => format!("(WName {})", coq::n(*c as u64)),
+                Wd::Other(_) => "WOther".to_string(),
+                Wd::Dash => "WDash".to_string(),
+                Wd::Empty => "WEmpty".to_string(),
+                Wd::Cmd(id) => format!("(WCmd {})", coq::n(*id as u64)),
+            }
+        }
     }
 
     const NAMES: [(i32, &str); 12] = [
@@ -1669,6 +1705,15 @@ mod builtin_stream {
                 format!("{}trap {act} {}", if hard { "command " } else { "" }, ops.join(" "))
             }
             Step::Deliver(c) => format!("raise_safe {}", NAMES.iter().find(|(n, _)| n == c).unwrap().1),
+            // `command` keeps a non-interactive shell alive after an error of the special built-in
+            Step::Words(ws) => {
+                let mut t = "command trap".to_string();
+                for w in ws {
+                    t.push(' ');
+                    t.push_str(&w.text());
+                }
+                t
+            }
         }
     }
 
@@ -1779,6 +1824,17 @@ mod builtin_stream {
                     w.count(&format!("builtin:trap-conditions:{}", conds.len().min(4)));
                     shown.push(format!("{} => status {} [{}]", step_text(s), status, oshow));
                 }
+                Step::Words(ws) => {
+                    terms.push(format!(
+                        "(BTrapWords {} {} {})",
+                        coq::list(&ws.iter().map(|x| x.coq()).collect::<Vec<_>>()),
+                        coq::n((*status).max(0) as u64),
+                        oterm
+                    ));
+                    w.count("builtin:trap-by-words");
+                    w.count(&format!("builtin:trap-by-words:status:{status}"));
+                    shown.push(format!("{} => status {} [{}]", step_text(s), status, oshow));
+                }
                 Step::Deliver(c) => {
                     if sent.next() == Some(&true) {
                         let hs: Vec<String> = hits.iter().map(|h| coq::n(*h as u64)).collect();
@@ -1812,7 +1868,7 @@ mod builtin_stream {
             shown.iter().map(|x| json_str(x)).collect::<Vec<_>>().join(","),
             complete
         );
-        let multi = steps.iter().any(|s| matches!(s, Step::Trap(c, ..) if c.len() >= 2));
+        let multi = steps.iter().any(|s| matches!(s, Step::Trap(c, ..) if c.len() >= 2) || matches!(s, Step::Words(c) if c.len() >= 3));
         w.push(&term, &json, &[], if multi { Some(format!("{}|{}", init.join(" "), text)) } else { None });
     }
 
@@ -1853,6 +1909,57 @@ mod builtin_stream {
                 // an operand that names no condition: nothing is touched
                 Step::Trap(vec![n(1), n(125)], Act::Default, Some(1)),
                 Step::Deliver(1),
+            ],
+        );
+    }
+
+    /// the operand forms of the built-in (stream C by words)
+    pub fn corpus_words(w: &mut CasesWriter) {
+        use Disposition::{Default as D, Ignore as I};
+        use Wd::*;
+        let univ = [(0, D), (1, D), (2, I), (9, D), (15, D), (116, D), (124, D)];
+        emit(
+            w,
+            "builtin-corpus",
+            false,
+            &univ,
+            &[
+                // names and numbers mixed, INT ignored on entry (silent), KILL in the middle (status 1), the rest still set
+                Step::Words(vec![Cmd(1), Name(2), Num(9), Name(15), Num(0), Num(124)]),
+                Step::Deliver(15),
+                Step::Deliver(124),
+                // a numeric first operand is a condition: everything named is reset
+                Step::Words(vec![Num(15), Name(124)]),
+                Step::Words(vec![Cmd(2), Name(1), Name(15)]),
+                // SIG prefix and lower case name no condition in yash-rs: nothing is touched, status 1
+                Step::Words(vec![Dash, Name(1), Other("SIGTERM")]),
+                Step::Words(vec![Dash, Other("term"), Name(1)]),
+                Step::Words(vec![Empty, Name(1), Num(9999)]),
+                Step::Deliver(1),
+                Step::Deliver(15),
+                // `-` and '' as condition operands are unknown conditions
+                Step::Words(vec![Cmd(3), Name(1), Dash]),
+                // an action without condition: status 2
+                Step::Words(vec![Cmd(3)]),
+                // STOP first, then valid ones
+                Step::Words(vec![Empty, Name(116), Name(1), Num(15)]),
+                Step::Deliver(1),
+                Step::Words(vec![Dash, Num(1)]),
+                Step::Words(vec![Num(0), Num(15)]),
+            ],
+        );
+        let univ = [(2, I), (3, D), (15, I), (120, D), (121, D), (122, D), (124, I)];
+        emit(
+            w,
+            "builtin-corpus",
+            true,
+            &univ,
+            &[
+                Step::Words(vec![Cmd(1), Name(15), Num(124), Name(120)]),
+                Step::Deliver(15),
+                Step::Deliver(124),
+                Step::Words(vec![Num(15), Num(124)]),
+                Step::Words(vec![Empty, Name(3), Other("SIGQUIT")]),
             ],
         );
     }
@@ -1899,7 +2006,41 @@ mod builtin_stream {
         let mut steps = vec![];
         let len = 2 + r.below(6);
         for _ in 0..len {
-            if r.chance(3, 5) {
+            if r.chance(1, 4) {
+                // by words: action word or none, conditions by name or number, now and then an operand that is none
+                let mut ws: Vec<Wd> = vec![];
+                let with_action = r.chance(3, 4);
+                if with_action {
+                    ws.push(match r.below(6) {
+                        0 => Wd::Dash,
+                        1 => Wd::Empty,
+                        _ => Wd::Cmd(1 + r.below(3) as u32),
+                    });
+                }
+                // (no operand at all prints the traps, which also reads every condition's state: not generated)
+                let k = if with_action && r.chance(1, 15) { 0 } else { 1 + r.below(4) };
+                for i in 0..k {
+                    let c = *r.pick(&conds);
+                    let numeric = (i == 0 && !with_action) || r.chance(1, 3);
+                    ws.push(if numeric { Wd::Num(c) } else { Wd::Name(c) });
+                }
+                if k > 0 && r.chance(1, 8) {
+                    let bad = match r.below(7) {
+                        0 => Wd::Other("BOGUS"),
+                        1 => Wd::Other("SIGINT"),
+                        2 => Wd::Other("int"),
+                        3 => Wd::Other("sigterm"),
+                        4 => Wd::Num(9999),
+                        5 => Wd::Dash,
+                        _ => Wd::Empty,
+                    };
+                    // never first when there is no action word (it would be the action)
+                    let lo = if with_action { 1 } else { 1 };
+                    let at = lo + r.below(ws.len() - lo + 1);
+                    ws.insert(at, bad);
+                }
+                steps.push(Step::Words(ws));
+            } else if r.chance(3, 5) {
                 let k = 1 + r.below(4);
                 let cs: Vec<(i32, String)> = (0..k).map(|_| cond(*r.pick(&conds), r.chance(1, 4))).collect();
                 let a = match r.below(6) {
@@ -1917,6 +2058,424 @@ mod builtin_stream {
             }
         }
         emit(w, "builtin-random", interactive, &univ, &steps);
+    }
+}
+
+
+// ---------------------------------------------------------------------------
+// Stream D (`CWait`): the `wait` built-in interrupted by trapped signals.
+//
+// All children are started before the first `wait`; each child is a list of
+// steps at distinct instants of virtual time: `nap D; tell J SIG...` (a batch
+// of signals sent to the main shell) and finally `nap D; bye J ST; exit ST`.
+// The main shell's own commands take no virtual time, so every event reaches
+// it while it is blocked in `wait`.  Coq gets the script, the events in the
+// order of virtual time, and the trace recorded by p / mark / tell / bye.
+mod wait_stream {
+    use super::script::{Tact, name_of, number_of};
+    use super::*;
+    use yash_env::builtin::{Builtin, Type};
+    use yash_env::semantics::{ExitStatus, Field};
+    use yash_env::system::concurrency::Sleep as _;
+    use yash_env::system::{GetPid as _, SendSignal as _};
+    use yv_harness::vsh::{BuiltinFuture, RunOpts, TraceItem, run_shell, trace_push};
+
+    #[derive(Clone, Debug)]
+    pub enum WCmd {
+        P(u32, u32),
+        Trap(i32, Tact),
+        Spawn(u32),
+        /// None = `wait`, Some(j) = `wait $pJ`
+        Wait(Option<u32>),
+    }
+    #[derive(Clone, Debug)]
+    pub enum WEv {
+        Sigs(u32, Vec<i32>),
+        Child(u32, u32),
+    }
+
+    fn rec(env: &VEnv, kind: &str, args: &[Field]) {
+        trace_push(TraceItem {
+            kind: kind.to_string(),
+            status: env.exit_status.0,
+            args: args.iter().map(|f| f.value.clone()).collect(),
+            in_main: env.system.getpid() == env.main_pid,
+        });
+    }
+    fn nap_main(env: &mut VEnv, args: Vec<Field>) -> BuiltinFuture<'_> {
+        Box::pin(async move {
+            let n = args.first().and_then(|f| f.value.parse::<u64>().ok()).unwrap_or(1);
+            env.system.sleep(std::time::Duration::from_millis(n)).await;
+            ExitStatus::SUCCESS.into()
+        })
+    }
+    fn tell_main(env: &mut VEnv, args: Vec<Field>) -> BuiltinFuture<'_> {
+        Box::pin(async move {
+            rec(env, "tell", &args);
+            let sg = number_of(&args[1].value);
+            let pid = env.main_pid;
+            env.system.kill(pid, Some(number(sg))).await.ok();
+            ExitStatus::SUCCESS.into()
+        })
+    }
+    fn bye_main(env: &mut VEnv, args: Vec<Field>) -> BuiltinFuture<'_> {
+        Box::pin(async move {
+            rec(env, "bye", &args);
+            ExitStatus::SUCCESS.into()
+        })
+    }
+
+    /// (time, event) sorted by time -> per-child shell text
+    fn child_text(j: u32, evs: &[(u32, WEv)]) -> String {
+        let mut t = 0;
+        let mut parts = vec![];
+        for (at, e) in evs {
+            match e {
+                WEv::Sigs(c, l) if *c == j => {
+                    parts.push(format!("nap {}", at - t));
+                    t = *at;
+                    for sg in l {
+                        parts.push(format!("tell {j} {}", name_of(*sg)));
+                    }
+                }
+                WEv::Child(c, st) if *c == j => {
+                    parts.push(format!("nap {}", at - t));
+                    t = *at;
+                    parts.push(format!("bye {j} {st}"));
+                    parts.push(format!("exit {st}"));
+                }
+                _ => {}
+            }
+        }
+        format!("{{ {}; }} &\np{j}=$!", parts.join("; "))
+    }
+
+    pub fn script_text(atbl: &[(u32, u32)], cs: &[WCmd], evs: &[(u32, WEv)]) -> String {
+        let mut out = String::new();
+        for c in cs {
+            let line = match c {
+                WCmd::P(k, st) => format!("p {k} {st}"),
+                WCmd::Trap(sg, a) => {
+                    let n = name_of(*sg);
+                    let arg = match a {
+                        Tact::Default => "-".to_string(),
+                        Tact::Ignore => "''".to_string(),
+                        Tact::Body(id) => {
+                            let arg = atbl.iter().find(|(i, _)| i == id).map(|x| x.1).unwrap_or(0);
+                            format!("'p {} {arg}'", 1000 + id)
+                        }
+                    };
+                    format!("mark {n} {}; trap {arg} {n}", a.mark())
+                }
+                WCmd::Spawn(j) => child_text(*j, evs),
+                WCmd::Wait(None) => "wait".to_string(),
+                WCmd::Wait(Some(j)) if cs.iter().any(|c| matches!(c, WCmd::Spawn(i) if i == j)) => format!("wait $p{j}"),
+                // a job that was never started: a process id nobody has
+                WCmd::Wait(Some(_)) => "wait 9999".to_string(),
+            };
+            out.push_str(&line);
+            out.push('\n');
+        }
+        out
+    }
+
+    fn cmd_coq(c: &WCmd) -> String {
+        match c {
+            WCmd::P(k, st) => format!("(WcP {} {})", coq::n(*k as u64), coq::n(*st as u64)),
+            WCmd::Trap(sg, a) => format!("(WcTrap {} {})", coq::n(*sg as u64), a.coq()),
+            WCmd::Spawn(j) => format!("(WcSpawn {})", coq::n(*j as u64)),
+            WCmd::Wait(None) => "(WcWait WAll)".to_string(),
+            WCmd::Wait(Some(j)) => format!("(WcWait (WJob {}))", coq::n(*j as u64)),
+        }
+    }
+    fn ev_coq(e: &WEv) -> String {
+        match e {
+            WEv::Sigs(j, l) => format!(
+                "(WSigs {} {})",
+                coq::n(*j as u64),
+                coq::list(&l.iter().map(|s| coq::n(*s as u64)).collect::<Vec<_>>())
+            ),
+            WEv::Child(j, st) => format!("(WChild {} {})", coq::n(*j as u64), coq::n(*st as u64)),
+        }
+    }
+
+    pub fn emit(w: &mut CasesWriter, stream: &str, atbl: &[(u32, u32)], cs: &[WCmd], evs: &[(u32, WEv)]) {
+        let text = script_text(atbl, cs, evs);
+        let (o, _) = script::with_watchdog(&text, 60, || {
+            run_shell(RunOpts { argv: vec!["-c".into(), text.clone()], ..Default::default() }, |env, state| {
+                if state.borrow().now.is_none() {
+                    state.borrow_mut().now = Some(std::time::Instant::now());
+                }
+                env.builtins.insert("p", Builtin::new(Type::Mandatory, script::p_main));
+                env.builtins.insert("mark", Builtin::new(Type::Mandatory, script::mark_main));
+                env.builtins.insert("nap", Builtin::new(Type::Mandatory, nap_main));
+                env.builtins.insert("tell", Builtin::new(Type::Mandatory, tell_main));
+                env.builtins.insert("bye", Builtin::new(Type::Mandatory, bye_main));
+            })
+        });
+        let mut trace_coq = vec![];
+        let mut show = vec![];
+        let mut actions = 0usize;
+        let mut interrupted = 0usize;
+        let mut foreign = false;
+        for it in &o.trace {
+            let a = |i: usize| it.args.get(i).cloned().unwrap_or_default();
+            let num = |i: usize| a(i).parse::<u64>().unwrap_or(0);
+            let before = it.status as u64;
+            match it.kind.as_str() {
+                "p" => {
+                    if !it.in_main {
+                        foreign = true;
+                    }
+                    if num(0) >= 1000 {
+                        actions += 1;
+                    }
+                    if before > 384 {
+                        interrupted += 1;
+                    }
+                    trace_coq.push(format!("(TP {} {} {})", coq::n(num(0)), coq::n(before), coq::n(num(1))));
+                    show.push(format!("p{}[$?={before}]->{}", num(0), num(1)));
+                }
+                "mark" => {
+                    let act = match a(1).as_str() {
+                        "-" => Tact::Default,
+                        "ign" => Tact::Ignore,
+                        id => Tact::Body(id.parse().unwrap_or(0)),
+                    };
+                    trace_coq.push(format!(
+                        "(TMark {} {} {})",
+                        coq::n(number_of(&a(0)) as u64),
+                        act.coq(),
+                        coq::n(before)
+                    ));
+                    show.push(format!("trap {} {}[$?={before}]", a(1), a(0)));
+                }
+                "tell" => {
+                    trace_coq.push(format!("(TTell {} {})", coq::n(num(0)), coq::n(number_of(&a(1)) as u64)));
+                    show.push(format!("<{}>tell {}", num(0), a(1)));
+                }
+                "bye" => {
+                    trace_coq.push(format!("(TBye {} {})", coq::n(num(0)), coq::n(num(1))));
+                    show.push(format!("<{}>bye {}", num(0), num(1)));
+                }
+                other => {
+                    foreign = true;
+                    show.push(other.to_string());
+                }
+            }
+        }
+        let dead = o.status == -1 && o.panicked.is_none() && !o.timeout;
+        let bad = if let Some(m) = &o.panicked {
+            Some(format!("panic: {m}"))
+        } else if o.timeout {
+            Some("timeout".to_string())
+        } else if foreign {
+            Some("a record from an unexpected process".to_string())
+        } else {
+            None
+        };
+        w.count(&format!("stream:{stream}"));
+        w.count(&format!("wait:actions-run:{}", match actions { 0 => "0", 1 => "1", 2..=3 => "2-3", _ => "4+" }));
+        w.count(&format!("wait:commands-seeing-status>384:{}", match interrupted { 0 => "0", 1 => "1", _ => "2+" }));
+        if dead {
+            w.count("wait:main-shell-killed");
+        }
+        let atblc: Vec<String> =
+            atbl.iter().map(|(i, a)| format!("({}, {})", coq::n(*i as u64), coq::n(*a as u64))).collect();
+        let term = if bad.is_some() {
+            "(CPanic 3)".to_string()
+        } else {
+            format!(
+                "(CWait {} {} {} {} {})",
+                coq::list(&atblc),
+                coq::list(&cs.iter().map(cmd_coq).collect::<Vec<_>>()),
+                coq::list(&evs.iter().map(|(_, e)| ev_coq(e)).collect::<Vec<_>>()),
+                coq::list(&trace_coq),
+                coq::b(dead)
+            )
+        };
+        let json = format!(
+            "{{\"stream\":{},\"script\":{},\"trace\":{},\"main_shell_killed\":{}{}}}",
+            json_str(stream),
+            json_str(&text),
+            json_str(&show.join(" ")),
+            dead,
+            bad.as_ref().map_or(String::new(), |b| format!(",\"abnormal\":{}", json_str(b)))
+        );
+        let key = if interrupted > 0 || actions > 0 { Some(text.clone()) } else { None };
+        let tags: Vec<&str> = if bad.is_some() { vec!["abnormal"] } else { vec![] };
+        w.push(&term, &json, &tags, key);
+    }
+
+    const HUP: i32 = 1;
+    const TERM: i32 = 15;
+    const USR1: i32 = 124;
+    const USR2: i32 = 125;
+
+    pub fn corpus(w: &mut CasesWriter) {
+        use WCmd::*;
+        let atbl = [(1, 0), (2, 5), (3, 0), (4, 9)];
+        let b = Tact::Body;
+        // the plain case: one child, one trapped signal, wait interrupted, second wait completes
+        emit(
+            w,
+            "wait-corpus",
+            &atbl,
+            &[Trap(USR1, b(1)), Spawn(0), P(1, 7), Wait(None), P(2, 0), Wait(Some(0)), P(3, 0)],
+            &[(2, WEv::Sigs(0, vec![USR1])), (5, WEv::Child(0, 3))],
+        );
+        // ignored signal and a signal without trap command do not interrupt; the job's status is returned
+        emit(
+            w,
+            "wait-corpus",
+            &atbl,
+            &[Trap(USR1, Tact::Ignore), Spawn(0), P(1, 7), Wait(Some(0)), P(2, 0)],
+            &[(2, WEv::Sigs(0, vec![USR1, USR1])), (5, WEv::Child(0, 42))],
+        );
+        // a batch: the first trapped signal in order of arrival interrupts, the others run after the built-in, lowest first
+        emit(
+            w,
+            "wait-corpus",
+            &atbl,
+            &[
+                Trap(USR2, b(1)),
+                Trap(HUP, b(2)),
+                Trap(TERM, b(3)),
+                Trap(USR1, Tact::Ignore),
+                Spawn(0),
+                P(1, 7),
+                Wait(None),
+                P(2, 0),
+                Wait(None),
+                P(3, 0),
+            ],
+            &[(1, WEv::Sigs(0, vec![USR1, USR2, TERM, HUP, USR2])), (4, WEv::Child(0, 0))],
+        );
+        // SIGCHLD trapped: the child's end itself interrupts the wait
+        emit(
+            w,
+            "wait-corpus",
+            &atbl,
+            &[Trap(SIGCHLD, b(4)), Spawn(0), Spawn(1), P(1, 2), Wait(Some(1)), P(2, 0), Wait(Some(1)), P(3, 0), Wait(Some(0)), P(4, 0), Wait(Some(0)), P(5, 0)],
+            &[(3, WEv::Child(1, 8)), (6, WEv::Child(0, 9))],
+        );
+        // `wait` for all: the finished job before the first running one is forgotten when the wait is interrupted
+        emit(
+            w,
+            "wait-corpus",
+            &atbl,
+            &[Trap(USR1, b(1)), Spawn(0), Spawn(1), Wait(None), P(1, 0), Wait(Some(0)), P(2, 0), Wait(Some(1)), P(3, 0)],
+            &[(1, WEv::Child(0, 4)), (2, WEv::Sigs(1, vec![USR1])), (3, WEv::Child(1, 6))],
+        );
+        // two children, signals from both, job done before the signal
+        emit(
+            w,
+            "wait-corpus",
+            &atbl,
+            &[Trap(USR1, b(1)), Trap(USR2, b(2)), Spawn(0), Spawn(1), P(1, 3), Wait(Some(0)), P(2, 0), Wait(None), P(3, 0), Wait(None), P(4, 0)],
+            &[(1, WEv::Child(0, 4)), (2, WEv::Sigs(1, vec![USR2, USR1])), (3, WEv::Child(1, 6))],
+        );
+        // a signal with the default action kills the waiting shell
+        emit(
+            w,
+            "wait-corpus",
+            &atbl,
+            &[Trap(USR1, b(1)), Spawn(0), Spawn(1), P(1, 3), Wait(None), P(2, 0)],
+            &[(1, WEv::Sigs(0, vec![USR1, TERM])), (2, WEv::Sigs(1, vec![USR1])), (3, WEv::Child(0, 0)), (4, WEv::Child(1, 1))],
+        );
+        // trap changed between two waits
+        emit(
+            w,
+            "wait-corpus",
+            &atbl,
+            &[Trap(USR1, b(1)), Spawn(0), Wait(None), P(1, 0), Trap(USR1, Tact::Ignore), Wait(None), P(2, 0), Wait(Some(0)), P(3, 0)],
+            &[(1, WEv::Sigs(0, vec![USR1])), (2, WEv::Sigs(0, vec![USR1])), (3, WEv::Child(0, 5))],
+        );
+    }
+
+    pub fn random(w: &mut CasesWriter, r: &mut Rng) {
+        let sigs = [HUP, TERM, USR1, USR2];
+        let nact = 2 + r.below(4) as u32;
+        let atbl: Vec<(u32, u32)> = (1..=nact).map(|i| (i, *r.pick(&[0u32, 0, 1, 5, 9]))).collect();
+        let nchild = 1 + r.below(3) as u32;
+        // what the generator believes about each signal (to steer the events)
+        let mut belief: HashMap<i32, Tact> = HashMap::new();
+        let mut cs: Vec<WCmd> = vec![];
+        let mut key = 0u32;
+        let mut p = |cs: &mut Vec<WCmd>, r: &mut Rng| {
+            key += 1;
+            cs.push(WCmd::P(key, *r.pick(&[0u32, 0, 1, 2, 7, 42])));
+        };
+        let trap_cmd = |r: &mut Rng, belief: &mut HashMap<i32, Tact>, nact: u32| -> WCmd {
+            let sg = if r.chance(1, 6) { SIGCHLD } else { *r.pick(&sigs) };
+            let a = match r.below(10) {
+                0 => Tact::Default,
+                1..=2 => Tact::Ignore,
+                _ => Tact::Body(1 + r.below(nact as usize) as u32),
+            };
+            belief.insert(sg, a);
+            WCmd::Trap(sg, a)
+        };
+        for _ in 0..(1 + r.below(4)) {
+            let c = trap_cmd(r, &mut belief, nact);
+            cs.push(c);
+        }
+        for j in 0..nchild {
+            if r.chance(1, 3) {
+                p(&mut cs, r);
+            }
+            cs.push(WCmd::Spawn(j));
+        }
+        if r.chance(1, 2) {
+            p(&mut cs, r);
+        }
+        // the events: per child 0-3 batches, then the end; a random interleaving
+        let mut per: Vec<Vec<WEv>> = vec![];
+        for j in 0..nchild {
+            let mut v = vec![];
+            for _ in 0..r.below(4) {
+                let n = 1 + r.below(3);
+                let mut l = vec![];
+                for _ in 0..n {
+                    // mostly signals that do not kill the shell
+                    let safe: Vec<i32> = sigs.iter().copied().filter(|s| belief.contains_key(s) && belief[s] != Tact::Default).collect();
+                    let sg = if !safe.is_empty() && !r.chance(1, 30) { *r.pick(&safe) } else { *r.pick(&sigs) };
+                    l.push(sg);
+                }
+                v.push(WEv::Sigs(j, l));
+            }
+            v.push(WEv::Child(j, *r.pick(&[0u32, 0, 1, 3, 9, 42])));
+            per.push(v);
+        }
+        let mut evs: Vec<(u32, WEv)> = vec![];
+        let mut idx = vec![0usize; nchild as usize];
+        let mut t = 0u32;
+        loop {
+            let live: Vec<usize> = (0..nchild as usize).filter(|j| idx[*j] < per[*j].len()).collect();
+            if live.is_empty() {
+                break;
+            }
+            let j = *r.pick(&live);
+            t += 1 + r.below(3) as u32;
+            evs.push((t, per[j][idx[j]].clone()));
+            idx[j] += 1;
+        }
+        // waits, probes and trap changes
+        let nw = 1 + r.below(2 + evs.len());
+        for _ in 0..nw {
+            let extra = if r.chance(1, 10) { 1 } else { 0 };
+            let tgt = if r.chance(1, 2) { None } else { Some(r.below(nchild as usize + extra) as u32) };
+            cs.push(WCmd::Wait(tgt));
+            if r.chance(4, 5) {
+                p(&mut cs, r);
+            }
+            if r.chance(1, 5) {
+                let c = trap_cmd(r, &mut belief, nact);
+                cs.push(c);
+            }
+        }
+        w.count(&format!("wait:children:{nchild}"));
+        emit(w, "wait-random", &atbl, &cs, &evs);
     }
 }
 
@@ -1972,10 +2531,19 @@ fn main() {
     // stream C: the trap built-in with several conditions
     builtin_stream::corpus(&mut w);
     builtin_stream::corpus_interactive(&mut w);
+    builtin_stream::corpus_words(&mut w);
     let n = args.scale(300, 4000);
     for k in 0..n {
         let mut r = rng.fork(2_000_000 + k as u64);
         builtin_stream::random(&mut w, &mut r);
+    }
+
+    // stream D: the wait built-in interrupted by trapped signals
+    wait_stream::corpus(&mut w);
+    let n = args.scale(400, 6000);
+    for k in 0..n {
+        let mut r = rng.fork(3_000_000 + k as u64);
+        wait_stream::random(&mut w, &mut r);
     }
 
     // stream B: scripts
